@@ -450,3 +450,14 @@ Definition one_call_all : bool :=
         | v1 :: _, v2 :: _ => one_call_pair cenv (snd cs) st0 (fst (fst l1)) (fst (fst l2)) v1 v2
         | _, _ => true
         end) (sleaves (snd cs))) (sleaves (snd cs))) style_classes.
+
+(* constructor -> pending style arguments -> first read of .style.  Built with style=<dict> only, the object's
+   pending arguments ARE the caller's dict (no copy is taken when there are no style_ keywords); the getter applies a
+   copy of them and then either rebinds its attribute to a new empty dict (`rebinds`) or clears the dict in place
+   (seeded variant), which empties the dict for the caller and for every other object built from it.
+   shared_dict_after_read: the caller's dict after ONE of the objects built from it was read;
+   second_object_style: the style a second object built from the same dict gets when it is read afterwards *)
+Definition shared_dict_after_read (rebinds : bool) (d : dict) : dict := if rebinds then d else [].
+
+Definition second_object_style (rebinds : bool) (s : schema) (d : dict) : tree * option err :=
+  obj_new cenv s (shared_dict_after_read rebinds d) [].
